@@ -873,7 +873,7 @@ impl BestSwapPaths<'_> {
         let distance = distances[target_ix];
 
         if *source == *target {
-            return (distance.map(distance_to_exchange_rate), vec![]);
+            return (distance.and_then(distance_to_exchange_rate), vec![]);
         }
 
         let mut path = vec![];
@@ -895,15 +895,16 @@ impl BestSwapPaths<'_> {
                 // Since `target != source`, an empty path means there's no valid distance.
                 None
             } else {
-                distance.map(distance_to_exchange_rate)
+                distance.and_then(distance_to_exchange_rate)
             },
             path,
         )
     }
 }
 
-fn distance_to_exchange_rate(d: Decimal) -> Decimal {
-    (-d).exp()
+/// Returns `None` if the rate is not representable (`exp` would overflow or underflow).
+fn distance_to_exchange_rate(d: Decimal) -> Option<Decimal> {
+    (-d).checked_exp()
 }
 
 #[cfg(test)]
@@ -1488,3 +1489,7 @@ mod tests {
         Ok(())
     }
 }
+
+/// Verification hook for property C42 (child module: needs the private fields of this module).
+#[cfg(feature = "verif-hooks")]
+mod verif_c42;
